@@ -53,6 +53,17 @@ RULES_TOGETHER = {
                                               A("UGE(x, 8)", 2), A("z == y", 1), E("x", 20, 0), E("x", 20, 1), E("z", 20, 2), E("z", 20, 1),
                                               {"s": 0, "op": "max", "e": "x", "signed": False, "extra": []}],
 }
+# user-level replacements (no brute-force reading): (history, cut) - the solver tuple is copied through pickle after `cut` calls
+# and both tuples run the rest, every answer compared.  What a replacement solver WORKED OUT from its replacements (x + 1 under
+# x -> 5) is not a replacement: when the replacement changes after the round trip, the restored solver must follow like the original
+RP = lambda v, c, s=0: {"s": s, "op": "add", "cs": ["(%s) == %d" % (v, c)], "repl": [v, c]}  # noqa: E731
+TWIN_RULES = {
+    "replacement-changes-after-round-trip": ([RP("x", 5), E("x + ZeroExt(1, y)", 40), E("x - 1", 40), {"s": 0, "op": "max", "e": "x & 3", "signed": False, "extra": []},
+                                              RP("x", 7), E("x - 1", 40), E("x & 3", 40), E("x + ZeroExt(1, y)", 40), E("x", 40)], 4),
+    "replacement-changes-on-a-branch-after-round-trip": ([RP("y", 6), A("ULE(x, 11)"), E("y ^ z", 40), E("If(b, y, y + 1)", 40), {"s": 0, "op": "branch"},
+                                                          RP("y", 1, 1), E("y ^ z", 40, 1), E("If(b, y, y + 1)", 40, 1), E("y ^ z", 40, 0),
+                                                          {"s": 0, "op": "downsize"}, RP("y", 2, 0), E("If(b, y, y + 1)", 40, 0)], 4),
+}
 
 
 def jobs_for(ctx, classes, mult=1):
@@ -260,7 +271,8 @@ def run(ctx):
                        "send ALL solvers of the history through one dump, so that branches come back sharing what they shared); (b) solver trees pickled "
                        "after a random prefix, suffix run and judged in a fresh interpreter with a random PYTHONHASHSEED; (c) random annotated expressions "
                        "(depth <= 4): identity in-process, structure and value table equal in a fresh process; (d) SolverReplacement histories with "
-                       "add_replacement(variable, constant): the restored solver tuple runs side by side with the original, answers compared, in-process and (over a variable whose hash differs between processes) in a fresh process; (e) annotated / floating-point "
+                       "add_replacement(variable, constant) - also CHANGING a replacement after the round trip, when expressions over the variable were asked "
+                       "about before it -: the restored solver tuple runs side by side with the original, answers compared, in-process and (over a variable whose hash differs between processes) in a fresh process; (e) annotated / floating-point "
                        "expressions restored in a fresh process are the object that process builds natively, under the hash it computes")
     tie_ok = True
     try:
@@ -304,7 +316,16 @@ def run(ctx):
     uni = L.Universe()
     tw_ran = 0
     for cls in ("SolverReplacement", "SolverReplacement:noauto", "SolverHybrid"):
-        found, ran = L.twin_search(uni, ctx.rng, cls, "restored", ctx.pick(12, 200), ctx.pick(14, 30), approx=0.5 if cls == "SolverHybrid" else 0.0)
+        # 40% of the histories open with: add_replacement(v, c), questions about compound expressions over v, [round trip here], the
+        # replacement changes (add_replacement(v, c')), the same questions again
+        found, ran = L.twin_search(uni, ctx.rng, cls, "restored", ctx.pick(16, 200), ctx.pick(14, 30), approx=0.5 if cls == "SolverHybrid" else 0.0,
+                                   directed=0.4)
+        cfg0 = {"track": False, "reuse": False}
+        for name, (h, cut) in TWIN_RULES.items():
+            ran += len(h)
+            f = L.run_twin(uni, cls, cfg0, h, "restored", cut)
+            if f and L.run_twin(uni, cls, cfg0, h, "restored", cut):
+                found.insert(0, {"cls": cls, "cfg": cfg0, "hist": h[:f[0][0] + 1], "cut": cut, "mode": "restored", "fails": [list(f[0])]})
         tw_ran += ran
         ctx.count(ran)
         for f in found[:2]:
